@@ -64,7 +64,7 @@ PROPS = {
     "C08": dict(units=["spawn", "builder"], kani=["w_pipe", "w_set_inheritable", "w_make_standard_stream"], level="proof",
                 bounded_scenarios=[("c08_fd_audit", "2 x 49 descriptor tables read back from real children (/proc/$$/fd): single commands under all 8 inherit/pipe combinations alone and with three other Popens alive, 4 merge variants, a child spawned while three exchanges (communicate_start, Exec::communicate, Pipeline::communicate) are set up and unfinished, every stage of 2..4-command pipelines run by join / capture / stream_stdout, 100 children spawned concurrently from four threads; all of it a second time in a parent whose descriptors 0 and 2 are closed; a child may hold 0, 1, 2 and nothing else")]),
     "C09": dict(units=["pstate"], kani=["w_decode_exit_status", "w_waitpid"], level="proof",
-                bounded_scenarios=[("c09_status_matrix", "298 children through the real crate: every exit code 0..255 through wait / wait_timeout / poll, 20 fatal signals with and without core dumps, a stopped child (never reported as finished), a child reaped behind the library's back; every later query in every order must repeat the status and pid() must be gone")]),
+                bounded_scenarios=[("c09_status_matrix", "303 children through the real crate: every exit code 0..255 through wait / wait_timeout / poll, 20 fatal signals with and without core dumps, a stopped child (never reported as finished), a child reaped behind the library's back, 4 detached children queried after other children were started and reaped, a blocking wait disturbed by a signal handler every 30 ms; every later query in every order must repeat the status and pid() must be gone")]),
     "C10": dict(units=["pstate"], kani=["w_kill", "w_waitpid"], level="proof",
                 bounded_scenarios=[("c10_signals", "6 children under strace -e trace=kill (one of them the leader of its own process group with a helper in the group: the signals go to the pid, not to the group): terminate / send_signal(USR1, HUP, INT) / kill reach a trapping child as exactly those signals and nothing else is signalled; after the end was observed by wait / poll / wait_timeout (exit, SIGKILL, reaped elsewhere) the three calls return Ok and make no system call")]),
     "C11": dict(units=["pstate"], kani=["w_waitpid"], level="proof",
